@@ -223,11 +223,31 @@ REPLAY_PHASE = '''
 import math
 # arcs of both sweep directions against curves that cross them: every crossing of the arc must be reported (phase2t maps the phase of
 # the crossing on the unit circle to the arc parameter)
-curves = [Line(-3-2j, 5+4j), QuadraticBezier(-2-2j, 1+6j, 4-2j), CubicBezier(-3+0j, 0+4j, 2-4j, 5+1j)]
-for sw in (0, 1):
-    for la in (0, 1):
-        for rot in (30, -75, 0):
-            arc = Arc(0j, 2+1j, rot, la, sw, 3+1j)
+curves = [Line(-3-2j, 5+4j), QuadraticBezier(-2-2j, 1+6j, 4-2j), CubicBezier(-3+0j, 0+4j, 2-4j, 5+1j), Line(-4+0.3j, 4-0.5j), QuadraticBezier(-3+2j, 0-5j, 3+2.5j)]
+theta_m, delta_m, t_m = %r
+def arc_of(theta, delta, rot):
+    def pt(a):
+        a = math.radians(a); z = complex(2 * math.cos(a), 1 * math.sin(a))
+        return z * complex(math.cos(math.radians(rot)), math.sin(math.radians(rot))) + (0.4 + 0.2j)
+    return Arc(pt(theta), 2+1j, rot, abs(delta) > 180, delta > 0, pt(theta + delta))
+arcs = [Arc(0j, 2+1j, rot, la, sw, 3+1j) for sw in (0, 1) for la in (0, 1) for rot in (30, -75, 0)]
+if 5 <= abs(delta_m) <= 355:
+    arcs = [arc_of(theta_m, delta_m, 30), arc_of(theta_m, delta_m, -75)] + arcs
+    # a line and a quadratic that cross the model's arc transversally at the model's parameter
+    for arc in arcs[:2]:
+        if abs(arc.delta - delta_m) > 1e-6: continue
+        p = arc.point(t_m); d = arc.derivative(t_m); n = 1j * d / abs(d)
+        qa, qb = p - 1.1 * n - 0.4 * d / abs(d), p + 0.8 * n - 0.3 * d / abs(d)
+        for cv in (Line(p - 1.3 * n, p + 0.9 * n), QuadraticBezier(qa, 2 * p - (qa + qb) / 2, qb)):       # the quadratic passes through p at 1/2
+            for x, y, sw_ in ((arc, cv, False), (cv, arc, True)):
+                r = x.intersect(y)
+                ts = [(b if sw_ else a) for a, b in r]
+                if 0.02 < t_m < 0.98 and not any(abs(t - t_m) < 2e-2 for t in ts):
+                    REPRODUCED('%%r (theta %%r, delta %%r) is crossed by %%r at its parameter %%r but intersect() = %%r' %% (arc, arc.theta, arc.delta, cv, t_m, r))
+for arc in arcs:
+    if True:
+        if True:
+            rot = arc.rotation
             for cv in curves:
                 if rot == 0 and isinstance(cv, Line): continue
                 r = arc.intersect(cv)
@@ -305,6 +325,6 @@ def fam_phase2t(R, sign):
         tde = _normalise(z3.simplify(t.e * de.e))
         # theta + t delta = theta + t* delta, except that the two ends of a full turn may be exchanged (outside: |delta| < 360)
         R.ob('phase2t-returns-the-parameter', ctx, tde == ts.e * de.e,
-             cex=lambda m: {'cls': 'Arc.phase2t', 'inputs': {'theta': mval(m, th), 'delta': mval(m, de), 't*': mval(m, ts)}, 'script': REPLAY_PHASE % ()},
+             cex=lambda m: {'cls': 'Arc.phase2t', 'inputs': {'theta': mval(m, th), 'delta': mval(m, de), 't*': mval(m, ts)}, 'script': REPLAY_PHASE % ((mval(m, th), mval(m, de), mval(m, ts)),)},
              robust=[ts.e >= 0.1, ts.e <= 0.9, zabs(de.e) >= 30, zabs(de.e) <= 330, zabs(tde - ts.e * de.e) >= 1])
         R.sample({'sign': sign})
